@@ -343,6 +343,74 @@ static void run_specific_trial(vf_rng_t *r)
 	/* t leaked on purpose: a late destructor may still touch it */
 }
 
+/* ------------------------------------------------------------------ (a') racing setters
+ * Several threads make the very first dispatch_queue_set_specific calls on a fresh queue at the
+ * same moment (each its own key), then replace and remove values concurrently; every key must end
+ * with the last value its (only) writer stored, seen from outside (dispatch_queue_get_specific)
+ * and from an item of a queue that targets it (dispatch_get_specific); every replaced or removed
+ * value gets its destructor once. */
+#define RS_THREADS 4
+typedef struct { dispatch_queue_t q; _Atomic int go, ready; _Atomic uint64_t dtors; void *final[RS_THREADS]; uint64_t set_calls[RS_THREADS]; int id_seq; } rs_t;
+typedef struct { rs_t *rs; int id; vf_rng_t rng; } rs_thr_t;
+static char rs_keys[RS_THREADS];
+static _Atomic(rs_t *) rs_cur;
+static void rs_dtor(void *v) { (void)v; rs_t *rs = atomic_load(&rs_cur); if (rs) atomic_fetch_add(&rs->dtors, 1); }
+static void *rs_main(void *arg)
+{
+	rs_thr_t *h = arg; rs_t *rs = h->rs;
+	atomic_fetch_add(&rs->ready, 1);
+	while (!atomic_load(&rs->go)) { }
+	int n = 1 + (int)vf_rnd_n(&h->rng, 6);
+	void *last = NULL;
+	for (int i = 0; i < n; i++) {
+		void *v = (i == n - 1 || vf_rnd_n(&h->rng, 4)) ? (void *)(uintptr_t)(0x1000 * (h->id + 1) + i + 1) : NULL;   /* NULL removes the key */
+		dispatch_queue_set_specific(rs->q, &rs_keys[h->id], v, rs_dtor);
+		if (v) rs->set_calls[h->id]++;
+		last = v;
+	}
+	rs->final[h->id] = last;
+	return NULL;
+}
+static void rs_check_item(void *ctx)
+{
+	rs_t *rs = ctx;
+	for (int k = 0; k < RS_THREADS; k++) {
+		void *got = dispatch_get_specific(&rs_keys[k]);
+		if (got != rs->final[k]) vf_violation("C18:get_specific:after-racing-first-setters:wrong-value", "dispatch_get_specific(key %d) from an item of a queue over the queue returned %p, the last value stored for that key is %p", k, got, rs->final[k]);
+	}
+}
+static void run_racing_setters(vf_rng_t *r)
+{
+	rs_t *rs = calloc(1, sizeof(*rs));
+	atomic_store(&rs_cur, rs);
+	rs->q = dispatch_queue_create("vf.ident.racing-setters", vf_rnd_n(r, 2) ? DISPATCH_QUEUE_SERIAL : DISPATCH_QUEUE_CONCURRENT);
+	pthread_t th[RS_THREADS]; rs_thr_t h[RS_THREADS];
+	for (int i = 0; i < RS_THREADS; i++) { h[i].rs = rs; h[i].id = i; vf_rng_seed(&h[i].rng, vf_rnd(r), (uint64_t)i); pthread_create(&th[i], NULL, rs_main, &h[i]); }
+	while (atomic_load(&rs->ready) < RS_THREADS) sched_yield();
+	atomic_store(&rs->go, 1);
+	for (int i = 0; i < RS_THREADS; i++) pthread_join(th[i], NULL);
+	uint64_t sets = 0;
+	for (int k = 0; k < RS_THREADS; k++) {
+		sets += rs->set_calls[k];
+		void *got = dispatch_queue_get_specific(rs->q, &rs_keys[k]);
+		if (got != rs->final[k]) vf_violation("C18:queue_get_specific:after-racing-first-setters:wrong-value", "%d threads made the first dispatch_queue_set_specific calls on a fresh queue at the same time: key %d reads %p, its writer last stored %p", RS_THREADS, k, got, rs->final[k]);
+	}
+	dispatch_queue_t child = dispatch_queue_create_with_target("vf.ident.racing-setters.child", DISPATCH_QUEUE_SERIAL, rs->q);
+	dispatch_sync_f(child, rs, rs_check_item);
+	dispatch_release(child);
+	dispatch_release(rs->q);
+	/* every non-NULL value stored is destroyed exactly once (replaced, removed, or at disposal) */
+	vf_watch_begin("ident:racing-setters:destructors", 0);
+	while (atomic_load(&rs->dtors) < sets) sched_yield();
+	vf_watch_end();
+	struct timespec ts = { 0, 50000 }; nanosleep(&ts, NULL);
+	if (atomic_load(&rs->dtors) != sets) vf_violation("C17:queue-specific-destructor-count", "racing setters: %llu values stored, %llu destructor calls", (unsigned long long)sets, (unsigned long long)atomic_load(&rs->dtors));
+	vf_count("racing_first_setter_rounds", 1);
+	vf_count("get_specific_checks", 2 * RS_THREADS);
+	atomic_store(&rs_cur, NULL);
+	free(rs);
+}
+
 /* ------------------------------------------------------------------ (b) */
 enum { VIA_ASYNC, VIA_SYNC, VIA_BARRIER_ASYNC, VIA_BARRIER_SYNC, VIA_ASYNC_AND_WAIT, VIA_APPLY, VIA_NESTED_SYNC, VIA_N };
 static const char *const via_names[] = { "async", "sync", "barrier_async", "barrier_sync", "async_and_wait", "apply", "sync-from-item-of-S" };
@@ -476,6 +544,7 @@ int main(int argc, char **argv)
 			vf_profile_t prof;
 			vf_perturb_draw(&r, &prof);
 			for (int k = 0; k < 40; k++) run_specific_trial(&r);
+			for (int k = 0; k < 400; k++) run_racing_setters(&r);
 			vf_perturb_off();
 			vf_emit("trial", "\"n\":40,\"sig\":\"specific-%d-%d\",\"nontrivial\":true,\"sample\":{\"part\":\"get_specific over 40 random hierarchies x 8 submission paths x 5 keys\",\"perturb\":\"%s\"}", prof.kind, idx % 16, prof.desc);
 		}
